@@ -116,6 +116,8 @@ def alpha_state(state):
         "feed": nat(state.feedRate) or 0,
         "funit": "in" if abs(state.feedRateUnitMultiplier - 25.4) < 1e-9 else "mm",
         "lr": lr,
+        "lastX": (nat(lastp.X_AXIS.current) or 0) if lastp is not None else 0,
+        "lastY": (nat(lastp.Y_AXIS.current) or 0) if lastp is not None else 0,
         "lastZ": (nat(lastp.Z_AXIS.current) or 0) if lastp is not None else 0,
         "pend": pend,
         "nreg": len(state.excludedRegions),
